@@ -20,12 +20,28 @@ def numReqs : List Ev → Nat
   | .req _ _ :: r => numReqs r + 1
   | _ :: r => numReqs r
 
+theorem issuedIds_eq_ids (l : List Out) : issuedIds l = ids l := by
+  induction l with
+  | nil => rfl
+  | cons o r ih => cases o <;> simp only [issuedIds, ids, ih]
+
+theorem numReqs_eq_nreq (l : List Ev) : numReqs l = nreq l := by
+  induction l with
+  | nil => rfl
+  | cons e r ih => cases e <;> simp only [numReqs, nreq, ih]
+
 /-- Every request id is even (the client's parity), differs from the connect request's id 0, and all ids issued on a
     connection are pairwise distinct — for any history with fewer than 2^31 - 1 requests (uint32 wrap-around). -/
 theorem C06.ids_even_distinct (evs : List Ev) (h : numReqs evs < 2147483647) :
     let ids := issuedIds (run {} evs).2
     (∀ id ∈ ids, id % 2 = 0 ∧ id ≠ 0 ∧ id < 4294967296) ∧ ids.Nodup := by
-  sorry
+  rw [numReqs_eq_nreq] at h
+  have := ids_main evs {} rfl (by show 2 + 2 * nreq evs < 4294967296; omega)
+  simp only [issuedIds_eq_ids]
+  refine ⟨fun id hid => ?_, this.2⟩
+  have h3 := this.1 id hid
+  have : (2 : Nat) ≤ id := h3.2.1
+  omega
 
 /-- well-formedness of reachable states: every blocked caller has its reply slot registered under its own id,
     a caller blocks on at most one request, and no two blocked callers share an id. -/
@@ -35,51 +51,53 @@ structure Inv (s : St) : Prop where
   idsDistinct : (s.waiting.map (·.id)).Nodup
 
 theorem C06.inv_init : Inv {} := by
-  sorry
+  exact ⟨sinv_init.registered, sinv_init.oneEach, sinv_init.idsDistinct⟩
 
 /-- the invariant holds in every state reachable by fewer than 2^31 - 1 requests -/
 theorem C06.inv_reachable (evs : List Ev) (h : numReqs evs < 2147483647) : Inv (run {} evs).1 := by
-  sorry
+  rw [numReqs_eq_nreq] at h
+  have := sinv_run evs {} sinv_init (by show 2 + 2 * nreq evs < 4294967296; omega)
+  exact ⟨this.registered, this.oneEach, this.idsDistinct⟩
 
 /-- OWN RESPONSE: whenever a caller returns a response, it bears the id of that caller's own outstanding request and is
     of the kind that request expects — whatever else is in flight and in whatever order the broker answers. -/
 theorem C06.own_response (s : St) (id : Nat) (rk : RKind) (c : Nat) (s' : St)
     (h : step s (.resp id rk) = (s', .delivered c rk)) :
     ∃ w ∈ s.waiting, w.caller = c ∧ w.id = id ∧ expected w.kind = rk ∧ alGet id s.pending = some c := by
-  sorry
+  exact own_response_aux s id rk c s' h
 
 /-- a response reaches at most the one caller registered under its id; every other blocked caller stays blocked, untouched -/
 theorem C06.others_undisturbed (s : St) (hs : Inv s) (id : Nat) (rk : RKind) (w : Waiter)
     (hw : w ∈ s.waiting) (hne : w.id ≠ id) :
     w ∈ (step s (.resp id rk)).1.waiting ∧ alGet w.id (step s (.resp id rk)).1.pending = some w.caller := by
-  sorry
+  exact others_undisturbed_aux s hs.registered hs.oneEach id rk w hw hne
 
 /-- unknown or already-answered ids are ignored without any state change -/
 theorem C06.unknown_ignored (s : St) (id : Nat) (rk : RKind) (h : alGet id s.pending = none) :
     step s (.resp id rk) = (s, .ignored) := by
-  sorry
+  exact step_resp_none s id rk h
 
 /-- a response is consumed: a duplicate of it is ignored -/
 theorem C06.duplicate_ignored (s : St) (id : Nat) (rk rk' : RKind) :
     (step (step s (.resp id rk)).1 (.resp id rk')).2 = .ignored := by
-  sorry
+  exact duplicate_ignored_aux s id rk rk'
 
 /-- CANCEL IS ISOLATED: a caller whose context ends stops waiting, nobody else's wait or registration changes,
     and a later response bearing its id is parked where nobody reads it (`stale`) — it is never handed to another caller. -/
 theorem C06.cancel_isolated (s : St) (c : Nat) :
     (step s (.cancel c)).1.pending = s.pending ∧
     (step s (.cancel c)).1.waiting = s.waiting.filter (·.caller ≠ c) := by
-  sorry
+  exact cancel_isolated_aux s c
 
 theorem C06.cancelled_response_is_stale (s : St) (hs : Inv s) (w : Waiter) (hw : w ∈ s.waiting) (rk : RKind) :
     (step (step s (.cancel w.caller)).1 (.resp w.id rk)).2 = .stale := by
-  sorry
+  exact cancelled_stale_aux s hs.registered w hw rk
 
 /-- a response of an unexpected kind bearing a caller's id is reported to that caller as an error (`mismatch`), never delivered as a value of the wrong type -/
 theorem C06.typed (s : St) (id : Nat) (rk : RKind) (c : Nat) (s' : St)
     (h : step s (.resp id rk) = (s', .mismatch c rk)) :
     ∃ w ∈ s.waiting, w.caller = c ∧ w.id = id ∧ expected w.kind ≠ rk := by
-  sorry
+  exact typed_aux s id rk c s' h
 
 example : (run {} [.req 1 .upOpen, .req 2 .metadata, .resp 4 .metaAck, .resp 2 .upOpenR, .resp 2 .upOpenR, .resp 8 .pong]).2
     = [.issued 2, .issued 4, .delivered 2 .metaAck, .delivered 1 .upOpenR, .ignored, .ignored] := by decide
